@@ -210,33 +210,79 @@ def check_remaining_len_taint(out, facts, floor=True, only=None):
                 return all(pure_reject(x) for x in term[1])
             return False
 
+        def has_err(term):
+            return term is not None and any(e[0] in ('ERR', 'PANIC') for e in sym.walk(term))
+
+        def cmp_sound(c, inside):
+            """`payload-of-remaining_len < need` with need the exact number of bytes about to be read"""
+            c = strip(c)
+            if not (isinstance(c, tuple) and c and c[0] == 'bin' and c[1] in ('Lt', 'Gt', 'Le', 'Ge')):
+                return False
+            tl, tr = tainted(c[2]), tainted(c[3])
+            if tl == tr:
+                return False
+            mine, other = (c[2], c[3]) if tl else (c[3], c[2])
+            # the remaining side must be the payload of Some(..), not the Option itself (None < Some(_) would reject every
+            # input of unknown length), and on the smaller side of the comparison
+            sm = strip(mine)
+            if not (isinstance(sm, tuple) and sm and sm[0] in ('field', 'unwrapped') and tainted(sm)):
+                return False
+            smaller_is_mine = (c[1] in ('Lt', 'Le')) == tl
+            if not smaller_is_mine:
+                return False
+            po = strip(other)
+            while isinstance(po, tuple) and po and po[0] in ('mutvar', 'unwrapped', 'tried'):
+                po = strip(po[3] if po[0] == 'mutvar' else po[1])
+            deferred = bool(f['path'] in private_users and refs.get(f['path']) and isinstance(po, tuple) and po and po[0] == 'param'
+                            and po[1] not in ('input', 'self'))
+            if deferred:
+                deferred_helpers.add(f['path'])
+                return True
+            # in a caller that is analysed only because a helper deferred its comparison, judge that comparison only
+            if f['path'] in caller_only and inside not in {tname(h) for h in deferred_helpers}:
+                return True
+            return _exact_byte_need(other, f)
+
+        def sound_reject(c, inside):
+            """the condition implies `remaining_len() == Some(l) && l < exact need`"""
+            c = strip(c)
+            if isinstance(c, tuple) and c and c[0] == 'bin' and c[1] == 'And':
+                return sound_reject(c[2], inside) or sound_reject(c[3], inside)
+            if isinstance(c, tuple) and c and c[0] == 'bin' and c[1] == 'Or':
+                return sound_reject(c[2], inside) and sound_reject(c[3], inside)
+            return cmp_sound(c, inside)
+
         def visit(term, inside=None):
             k = term[0]
             if k == 'alt':
                 cond = term[1]
-                dep = tainted(cond) or any(isinstance(d, tuple) and tainted(d) for d, _ in term[2])
-                if dep and not pure_reject(term):
-                    bad.append('a branch depending on remaining_len() does more than reject: ' + sym.tstr(term)[:160])
-                elif dep and isinstance(cond, tuple) and cond[0] == 'if':
-                    # the rejection must be sound: the bytes present are compared with the exact number of bytes the
-                    # decoder is going to read (count * size_of::<T>() for plain-data T), never with an element count
-                    # or any other quantity that an encoding can undercut (elements may encode to zero bytes)
+                arms = term[2]
+                if isinstance(cond, tuple) and cond and cond[0] == 'if' and tainted(cond):
                     c = strip(cond[1])
-                    if isinstance(c, tuple) and c[0] == 'bin' and c[1] in ('Lt', 'Gt', 'Le', 'Ge'):
-                        other = c[3] if tainted(c[2]) else c[2]
-                        po = strip(other)
-                        while isinstance(po, tuple) and po and po[0] in ('mutvar', 'unwrapped', 'tried'):
-                            po = strip(po[3] if po[0] == 'mutvar' else po[1])
-                        deferred = bool(f['path'] in private_users and refs.get(f['path']) and isinstance(po, tuple) and po and po[0] == 'param'
-                                        and po[1] not in ('input', 'self'))
-                        if deferred:
-                            deferred_helpers.add(f['path'])
-                        # in a caller that is analysed only because a helper deferred its comparison, judge that comparison only
-                        skip = f['path'] in caller_only and inside not in {tname(h) for h in deferred_helpers}
-                        if not deferred and not skip and not _exact_byte_need(other, f):
-                            bad.append('input is rejected when remaining_len() is below %s, which is not the exact byte length about to be read '
-                                       '(count * size_of::<T>() with T: ToMutByteSlice): valid encodings can be shorter' % sym.vstr(other)[:80])
-                for _, x in term[2]:
+                    ad = dict(arms)
+                    if isinstance(c, tuple) and c and c[0] == 'letcond' and c[1] == 'Some':
+                        # `if let Some(l) = remaining_len()? { .. }`: an input of unknown length just goes on
+                        if has_err(ad.get('false')):
+                            bad.append('an input whose remaining length is unknown is rejected')
+                    elif not pure_reject(term):
+                        bad.append('a branch depending on remaining_len() does more than reject: ' + sym.tstr(term)[:160])
+                    elif has_err(ad.get('false')):
+                        bad.append('input is rejected when a condition on remaining_len() is FALSE: not an audited form (%s)' % sym.vstr(c)[:100])
+                    elif has_err(ad.get('true')) and not sound_reject(c, inside):
+                        bad.append('input is rejected under `%s`, which does not amount to "remaining_len() is Some(l) and l is below the exact byte '
+                                   'length about to be read (count * size_of::<T>() with T: ToMutByteSlice)": valid encodings can be shorter, or the '
+                                   'length unknown' % sym.vstr(c)[:120])
+                elif tainted(cond) or any(isinstance(d, tuple) and tainted(d) for d, _ in arms):
+                    # a match on the Option (or with guards mentioning it): only a guarded `Some(l) if l < need` arm may reject
+                    if not pure_reject(term):
+                        bad.append('a branch depending on remaining_len() does more than reject: ' + sym.tstr(term)[:160])
+                    for d, x in arms:
+                        if not has_err(x):
+                            continue
+                        g = strip(d[2]) if isinstance(d, tuple) and len(d) > 2 and d[0] == 'guard' else None
+                        if g is None or not sound_reject(g, inside):
+                            bad.append('an arm of a match on remaining_len() rejects the input without comparing Some(l) with the exact byte length about to be read')
+                for _, x in arms:
                     visit(x, inside)
             elif k == 'cat':
                 for x in term[1]:
